@@ -153,6 +153,7 @@ func (h *Hub) Run() {
 			h.connMu.Lock()
 			// Check connection limit
 			if h.config.MaxConnectionsPerHub > 0 && len(h.connections) >= h.config.MaxConnectionsPerHub {
+				verifStep("Reg", conn, false)
 				h.connMu.Unlock()
 				log.Printf("[WS] Connection rejected (limit reached): %s", conn.ID)
 				h.metrics.IncrementRejectedConnections()
@@ -161,6 +162,7 @@ func (h *Hub) Run() {
 			}
 
 			h.connections[conn] = true
+			verifStep("Reg", conn, true)
 			h.connMu.Unlock()
 
 			h.metrics.IncrementConnections()
@@ -192,6 +194,7 @@ func (h *Hub) Run() {
 			h.connMu.Lock()
 			if _, ok := h.connections[conn]; ok {
 				delete(h.connections, conn)
+				verifStep("Unreg1", conn, true)
 				h.connMu.Unlock()
 
 				conn.closeSend()
@@ -230,6 +233,7 @@ func (h *Hub) Run() {
 				}
 				h.handlerMu.RUnlock()
 			} else {
+				verifStep("Unreg1", conn, false)
 				h.connMu.Unlock()
 			}
 
@@ -242,15 +246,18 @@ func (h *Hub) Run() {
 
 		case message := <-h.broadcast:
 			h.connMu.Lock()
+			verifStep("BcastBegin")
 			for conn := range h.connections {
 				if !conn.trySend(message) {
 					conn.closeSend()
 					delete(h.connections, conn)
+					verifStep("Evict1", conn)
 					conn.markClosed()
 					h.roomManager.RemoveConnectionFromAllRooms(conn)
 					conn.leaveAllRooms()
 				}
 			}
+			verifStep("BcastEnd")
 			h.connMu.Unlock()
 
 		case roomMsg := <-h.broadcastToRoom:
